@@ -28,6 +28,9 @@ func Run(o *drv.Out) {
 	CorpusLockedAtRootBoundary(o, 10)
 	CorpusLockedAtRootBoundary(o, 9)
 	CorpusLockSurvivesCommitteeChange(o)
+	CorpusPhaseSplitInterrupt(o, [7]int{1500, 1500, 2500, 4000, 2000, 12000, 2000})
+	CorpusPhaseSplitInterrupt(o, [7]int{1500, 1500, 2500, 4000, 12000, 2000, 2000})
+	CorpusPhaseSplitInterrupt(o, [7]int{800, 1200, 9000, 1500, 1000, 7000, 3000})
 	nCases := 80
 	if o.Tier == "thorough" {
 		nCases = 500
@@ -142,6 +145,19 @@ func timedCase(o c01.Sink, rng *rand.Rand, tier string, k int) caseStats {
 	// its last commit), just below it, or zero — all legal
 	lrhu := []uint64{10, 10, 9, 0}[rng.Intn(4)]
 	cfg := bftsim.Config{N: n, Powers: powers, Byz: byz, Root0: 10, Salt: rng.Uint64() % 1_000_000, RealTimeouts: true, LastRootHeightUpdated: lrhu}
+	if rng.Intn(2) == 0 { // every phase has its own timeout; sometimes one phase is 5-10 times the others
+		var ts [7]int
+		for p := range ts {
+			ts[p] = 500 + rng.Intn(3500)
+		}
+		if rng.Intn(2) == 0 {
+			ts[rng.Intn(7)] *= 5 + rng.Intn(6)
+		}
+		cfg.Timeouts = &ts
+		o.Count("timeouts:per-phase")
+	} else {
+		o.Count("timeouts:default")
+	}
 	if rng.Intn(2) == 0 { // root height 11 lists the same committee in another order
 		cfg.CommitteeOrder = map[uint64][]int{11: rng.Perm(n)}
 	}
